@@ -4,7 +4,7 @@ from fractions import Fraction
 
 from ..core.poly import Poly
 from ..core.loaders import LoaderTable, dtype_tables, Sqrt, Opq, CAT, SETUP
-from ..core.srcmodel import unparse, AnalysisError, dotted
+from ..core.srcmodel import unparse, AnalysisError, dotted, walk_no_nested
 from ..spec import column_units as U
 
 FILES = [CAT]
@@ -32,9 +32,11 @@ def run(chk):
     chk.rule('C05-R4', 'convert_units switch binds (B,Z) to (BoxSize, VelZSpace_to_kms) or both to 1.0; loaders read no header', 2)
     chk.rule('C05-R5', 'INT16SCALE == 32000', 1)
     chk.rule('C05-R6', 'int16 raw columns are promoted to float before they meet a header scalar or an integer (no silent int16 wrap-around for integer BoxSize)', 30)
+    chk.rule('C05-R8', 'the unit factors applied to a file\'s columns are those of that file\'s own header (a halo light cone may be given as files of several epochs, each with its own VelZSpace_to_kms)', 2)
     chk.rule('C05-R7', 'the loader table is built afresh by every instance from its own header: bound only to a new dict, no early exit on instance/class state, never stored in shared state', 4)
     chk.exhaustive = True
     fresh_table(chk)
+    own_header(chk)
     tabs = dtype_tables(src)
     for t in ('user_dt', 'clean_dt_progen', 'halo_lc_dt'):
         if t not in tabs:
@@ -53,7 +55,7 @@ def run(chk):
         raise AnalysisError('convert_units switch not found')
     tkeys = {n: unparse(v) for n, v in sw['true'].items()}
     fvals = {n: unparse(v) for n, v in sw['false'].items()}
-    okT = sorted(lt.units.values()) == ['B', 'Z'] and all('self.header[' in tkeys[n] for n in lt.units)
+    okT = sorted(lt.units.values()) == ['B', 'Z'] and all(tkeys[n].startswith(('self.header[', 'header[')) for n in lt.units)       # the instance header, or the header the setup was given (C05-R8)
     okF = set(fvals) == set(lt.units) and all(v in ('1.0', '1') for v in fvals.values())
     chk.check(okT and okF and sw['test'] == 'self.convert_units', 'C05-R4', CAT, SETUP, 'convert_units switch',
               f'on: {tkeys}; off: {fvals}', f'switch binds on={tkeys} off={fvals} test={sw["test"]} (need BoxSize & VelZSpace_to_kms / both 1.0)',
@@ -229,6 +231,60 @@ def _exact_radicand(node, lt=None):
 
 
 # --------------------------------------------------------------------------- R7
+def own_header(chk):
+    """`self.header` is the header of the FIRST file.  For halo light cones the mixed-directory test of _setup_file_paths is waived, so a
+    list may hold files of several redshift directories, whose headers differ in VelZSpace_to_kms (an epoch quantity).  Then the
+    loaders have to be rebuilt from each file's own header before that file is unpacked: in the per-file loop of _read_halo_info a call
+    `self._setup_halo_field_loaders(header=<file>['header'])` precedes the unpacking, and the setup reads BoxSize / VelZSpace_to_kms
+    from that parameter (which may default to self.header)."""
+    src = chk.src
+    sfp = src.func(CAT, 'CompaSOHaloCatalog._setup_file_paths')
+    waived = any(isinstance(n, ast.If) and 'halo_lc' in unparse(n.test) and any(isinstance(x, ast.Raise) for x in ast.walk(n)) for n in walk_no_nested(sfp))
+    if not waived:
+        chk.proven('C05-R8', CAT, 'CompaSOHaloCatalog._setup_file_paths', 'all files of a load share one directory (one header)', 'mixed directories are rejected for every layout', nontrivial=False)
+        chk.proven('C05-R8', CAT, SETUP, 'unit factors of the shared header', '', nontrivial=False)
+        return
+    rhi = src.func(CAT, 'CompaSOHaloCatalog._read_halo_info')
+    setup = src.func(CAT, SETUP)
+    loops = [s_ for s_ in rhi.body if isinstance(s_, ast.For) and 'enumerate(afs)' in unparse(s_.iter)]
+    okcall, why = False, 'no per-file loop'
+    if len(loops) == 1:
+        L = loops[0]
+        fvar = L.target.elts[1].id if isinstance(L.target, ast.Tuple) and len(L.target.elts) == 2 and isinstance(L.target.elts[1], ast.Name) else None
+        first_use = None
+        for k_, st in enumerate(L.body):
+            if any(isinstance(c_, ast.Call) and isinstance(c_.func, ast.Attribute) and c_.func.attr in ('_load_halo_field',) for c_ in ast.walk(st)) or \
+                    any(isinstance(x_, ast.Attribute) and x_.attr == 'halo_field_loaders' for x_ in ast.walk(st)):
+                first_use = k_
+                break
+        calls = []
+        for k_, st in enumerate(L.body):
+            for c_ in ast.walk(st):
+                if isinstance(c_, ast.Call) and isinstance(c_.func, ast.Attribute) and c_.func.attr == '_setup_halo_field_loaders' and unparse(c_.func.value) == 'self':
+                    calls.append((k_, st, c_))
+        why = 'the loaders are not rebuilt inside the per-file loop: every file is converted with the factors of self.header, the header of the FIRST file'
+        for k_, st, c_ in calls:
+            hk = [kw.value for kw in c_.keywords if kw.arg == 'header']
+            from_file = bool(hk) and fvar is not None and unparse(hk[0]) in (f"{fvar}['header']", f'{fvar}["header"]', f'{fvar}[self.header_key]', f"{fvar}.tree['header']")
+            guard_ok = st is c_ or isinstance(st, ast.Expr) or (isinstance(st, ast.If) and unparse(st.test) in ('not passthrough', 'not self.passthrough') and not st.orelse)
+            if from_file and guard_ok and (first_use is None or k_ < first_use):
+                okcall, why = True, f'loaders rebuilt from {unparse(hk[0])} before the file is unpacked'
+            elif from_file:
+                why = 'the per-file rebuild does not precede the unpacking of the file (or runs under another condition than "not passthrough")'
+    chk.check(okcall, 'C05-R8', CAT, 'CompaSOHaloCatalog._read_halo_info', 'loaders rebuilt from each file\'s own header before it is unpacked', why,
+              why + ' -- with a light-cone list over several redshift directories (accepted: the mixed-directory test is waived for light cones) the velocity-like columns of the later '
+              'files are off by the ratio of the two VelZSpace_to_kms (13% between z=2.25 and z=0.2)', node=loops[0] if loops else rhi)
+    # the setup takes the factors from its header parameter
+    params = [a.arg for a in setup.args.args]
+    reads = [n for n in walk_no_nested(setup) if isinstance(n, ast.Subscript) and isinstance(n.slice, ast.Constant) and n.slice.value in ('BoxSize', 'VelZSpace_to_kms')
+             and isinstance(n.ctx, ast.Load)]
+    dflt = any(isinstance(n, ast.If) and unparse(n.test) == 'header is None' and [unparse(b) for b in n.body] == ['header = self.header'] for n in setup.body)
+    okp = 'header' in params and bool(reads) and all(unparse(r.value) == 'header' for r in reads) and \
+        (dflt or not any(isinstance(d, ast.Constant) and d.value is None for d in setup.args.defaults))
+    chk.check(okp, 'C05-R8', CAT, SETUP, 'BoxSize and VelZSpace_to_kms are read from the header the setup was given', f'{[unparse(r) for r in reads]}',
+              f'the unit factors are read as {[unparse(r) for r in reads]}: not from a header parameter, so a per-file rebuild cannot take effect', node=setup)
+
+
 def fresh_table(chk):
     """The loaders are closures over the unit factors read from THIS instance's header, so the table has to be rebuilt
     by every instance: a table taken from class- or module-level state applies another catalog's BoxSize."""
